@@ -57,12 +57,13 @@ func NewGroupRouter(ctx context.Context, client *clientv3.Client, logger *slog.L
 		routes: make(map[string]string),
 	}
 
-	if err := r.loadAll(ctx); err != nil {
+	rev, err := r.loadAll(ctx)
+	if err != nil {
 		cancel()
 		return nil, fmt.Errorf("load initial group routes: %w", err)
 	}
 
-	go r.watch(watchCtx)
+	go r.watch(watchCtx, rev)
 	return r, nil
 }
 
@@ -102,10 +103,10 @@ func (r *GroupRouter) Stop() {
 	r.cancel()
 }
 
-func (r *GroupRouter) loadAll(ctx context.Context) error {
+func (r *GroupRouter) loadAll(ctx context.Context) (int64, error) {
 	resp, err := r.client.Get(ctx, groupLeasePrefix+"/", clientv3.WithPrefix())
 	if err != nil {
-		return err
+		return 0, err
 	}
 	fresh := make(map[string]string, len(resp.Kvs))
 	for _, kv := range resp.Kvs {
@@ -119,12 +120,14 @@ func (r *GroupRouter) loadAll(ctx context.Context) error {
 	r.routes = fresh
 	r.mu.Unlock()
 	r.logger.Info("loaded group routes from etcd", "count", len(fresh))
-	return nil
+	return resp.Header.Revision, nil
 }
 
-func (r *GroupRouter) watch(ctx context.Context) {
+func (r *GroupRouter) watch(ctx context.Context, rev int64) {
 	for {
-		watchChan := r.client.Watch(ctx, groupLeasePrefix+"/", clientv3.WithPrefix(), clientv3.WithPrevKV())
+		// Resume right after the revision the routing table reflects, so a
+		// lease change landing between loadAll and Watch is not lost.
+		watchChan := r.client.Watch(ctx, groupLeasePrefix+"/", clientv3.WithPrefix(), clientv3.WithPrevKV(), clientv3.WithRev(rev+1))
 		for resp := range watchChan {
 			if resp.Err() != nil {
 				r.logger.Warn("group lease watch error", "error", resp.Err())
@@ -132,6 +135,9 @@ func (r *GroupRouter) watch(ctx context.Context) {
 			}
 			r.mu.Lock()
 			for _, ev := range resp.Events {
+				if ev.Kv.ModRevision > rev {
+					rev = ev.Kv.ModRevision
+				}
 				etcdKey := string(ev.Kv.Key)
 				groupID, ok := groupLeaseKeyToGroupID(etcdKey)
 				if !ok {
@@ -156,8 +162,10 @@ func (r *GroupRouter) watch(ctx context.Context) {
 
 		r.logger.Warn("group lease watch stream closed, reconnecting")
 		time.Sleep(time.Second)
-		if err := r.loadAll(ctx); err != nil {
+		if loaded, err := r.loadAll(ctx); err != nil {
 			r.logger.Warn("group lease watch reconnect: reload failed", "error", err)
+		} else {
+			rev = loaded
 		}
 	}
 }
